@@ -55,7 +55,7 @@ class HeapMixin:
             raise Unsupported("fresh function value")
         v = V(kind, fresh(name, kind.sort()))
         if st is not None and isinstance(kind, Ref):
-            st.assume(z3.And(v.term >= 0, v.term < st.top))
+            st.assume(self.ref_wf(st, v))
         return v
 
     # ---------------------------------------------------------------- allocation
@@ -70,6 +70,8 @@ class HeapMixin:
         v = V(Ref(lt), a)
         la = self.H.len_arr(st)
         st.heap["len"] = z3.Store(la, a, n if n is not None else z3.IntVal(0))
+        if elem is not None:
+            st.heap["f___cls_Int"] = z3.Store(self.cls_arr(st), a, z3.IntVal(self.container_tag(lt)))
         if elem is not None and arr is not None:
             ea = self.H.el_arr(st, elem.sort())
             st.heap[self.H.n_el(elem.sort())] = z3.Store(ea, a, arr)
@@ -117,10 +119,50 @@ class HeapMixin:
         if getattr(st, "spec", False):
             return
         if isinstance(val.kind, Ref):
-            st.assume(z3.And(val.term >= 0, val.term < st.top))
+            st.assume(self.ref_wf(st, val))
+            if isinstance(val.kind.target, DictT) and val.kind.target.k is not None:
+                key = (val.term.get_id(), st.heap.get("len", self.H.base.get("len")).get_id() if ("len" in st.heap or "len" in self.H.base) else 0)
+                seen = st.ghost.setdefault("__dictwf__", set())
+                if key not in seen:
+                    st.ghost["__dictwf__"] = seen | {key}
+                    st.assume(z3.Implies(val.term != 0, self.dict_wf(st, val)))
         elif isinstance(val.kind, Tup):
             for x in val.term:
                 self.assume_wf(st, x)
+
+    _ctags: dict = {}
+
+    def container_tag(self, t) -> int:
+        """Distinct static container kinds get distinct dynamic tags (documented assumption: containers of
+        different static kinds never alias).  Lists/dicts whose kind is not yet known get the generic tag."""
+        if isinstance(t, ListT):
+            name = "list[" + (t.elem.name if t.elem is not None else "?") + "]"
+        else:
+            name = "dict[" + (t.k.name if t.k is not None else "?") + "," + (t.v.name if t.v is not None else "?") + "]"
+        if name not in HeapMixin._ctags:
+            HeapMixin._ctags[name] = -(len(HeapMixin._ctags) + 1)
+        return HeapMixin._ctags[name]
+
+    def cls_arr(self, st):
+        return self.H.fld_arr(st, "__cls", I)
+
+    def ref_wf(self, st: State, v: V, top=None):
+        """Type invariant of a reference: allocated, non-null unless optional, of a compatible dynamic class."""
+        top = st.top if top is None else top
+        k = v.kind
+        lo = 0 if k.optional else 1
+        conj = [v.term >= lo, v.term < top]
+        tag = self.cls_arr(st)[v.term]
+        t = k.target
+        if isinstance(t, ListT):
+            c = tag == self.container_tag(t)
+        elif isinstance(t, DictT):
+            c = tag == self.container_tag(t)
+        else:
+            subs = [s for s in self.reg.classes if self.reg.is_subclass(s, t.cls)] or [t.cls]
+            c = z3.Or([tag == self.class_id(s) for s in subs]) if len(subs) > 1 else tag == self.class_id(subs[0])
+        conj.append(z3.Implies(v.term != 0, c) if k.optional else c)
+        return z3.And(conj)
 
     def lset_all(self, st: State, v: V, n, arr, frame_node=None):
         """Replace the whole contents of list v."""
@@ -132,12 +174,12 @@ class HeapMixin:
 
     def lstore(self, st: State, v: V, i, x: V, node=None):
         self.check_frame(st, "list", v.term, node)
-        ek = self.resolve_elem(v, x)
+        ek = self.resolve_elem(v, x, st)
         name = self.H.n_el(ek.sort())
         ea = self.H.el_arr(st, ek.sort())
         st.heap[name] = z3.Store(ea, v.term, z3.Store(ea[v.term], i, self.to_term(x, ek)))
 
-    def resolve_elem(self, v: V, x: V) -> Kind:
+    def resolve_elem(self, v: V, x: V, st: State | None = None) -> Kind:
         t = v.kind.target
         if t.elem is None:
             k = x.kind
@@ -145,11 +187,16 @@ class HeapMixin:
                 raise Unsupported(f"list element kind {k}")
             t.elem = k
             t.name = ("iter[" if t.oneshot_possible else "list[") + k.name + "]"
+            if st is not None:
+                self.set_tag(st, v)
         return t.elem
+
+    def set_tag(self, st: State, v: V):
+        st.heap["f___cls_Int"] = z3.Store(self.cls_arr(st), v.term, z3.IntVal(self.container_tag(v.kind.target)))
 
     def lappend(self, st: State, v: V, x: V, node=None):
         self.check_frame(st, "list", v.term, node)
-        ek = self.resolve_elem(v, x)
+        ek = self.resolve_elem(v, x, st)
         n = self.llen(st, v)
         name = self.H.n_el(ek.sort())
         ea = self.H.el_arr(st, ek.sort())
@@ -208,6 +255,8 @@ class HeapMixin:
         dt.k, dt.v = k, vk
         dt.name = f"dict[{k.name if k else '?'},{vk.name if vk else '?'}]"
         d = V(Ref(dt), a)
+        if k is not None:
+            st.heap["f___cls_Int"] = z3.Store(self.cls_arr(st), a, z3.IntVal(self.container_tag(dt)))
         keys = self.new_list(st, k)
         st.heap["dkeys"] = z3.Store(self.H.dkeys_arr(st), a, keys.term)
         if k is not None:
@@ -225,7 +274,7 @@ class HeapMixin:
         k = d.kind.target.k
         kl = V(Ref(ListT(k)), self.H.dkeys_arr(st)[d.term])
         if not getattr(st, "spec", False):
-            st.assume(z3.And(kl.term >= 1, kl.term < st.top))
+            st.assume(self.ref_wf(st, kl))
         return kl
 
     def dhas(self, st: State, d: V, key: V):
@@ -247,6 +296,9 @@ class HeapMixin:
             t.k, t.v = key.kind, val.kind
             t.name = f"dict[{t.k.name},{t.v.name}]"
             self._dict_clear_dom(st, d)
+            self.set_tag(st, d)
+            klv = V(Ref(ListT(t.k)), self.H.dkeys_arr(st)[d.term])
+            self.set_tag(st, klv)
             kl = V(Ref(ListT(t.k)), self.H.dkeys_arr(st)[d.term])
         k, vk = t.k, t.v
         kt = self.to_term(key, k)
